@@ -315,6 +315,52 @@ fn run(thorough: bool, out: &mut Out) {
             }
         }
     }
+    // (5) near-valid headers: every single-position edit of well-formed 55-byte headers, including
+    //     multi-byte characters placed so that the byte length stays 55
+    let bases = [
+        "00-0af7651916cd43dd8448eb211c80319c-b7ad6b7169203331-01".to_string(),
+        format!("00-{}-{}-00", "f".repeat(32), "f".repeat(16)),
+        format!("00-{}-{}-ff", "0".repeat(32), "0".repeat(16)),
+    ];
+    let subst = ['0', 'f', 'F', 'g', '-', '+', ' ', 'é', '€', '😀', '\u{0}'];
+    for base in &bases {
+        let bytes = base.as_bytes();
+        for i in 0..=bytes.len() {
+            for c in subst {
+                // insertion
+                let mut t = String::new();
+                t.push_str(&base[..i]);
+                t.push(c);
+                t.push_str(&base[i..]);
+                check_decode(out, &t);
+                // replacement of as many bytes as the character is long (keeps the byte length)
+                let k = c.len_utf8();
+                if i + k <= bytes.len() {
+                    let mut t = String::new();
+                    t.push_str(&base[..i]);
+                    t.push(c);
+                    t.push_str(&base[i + k..]);
+                    check_decode(out, &t);
+                }
+                // replacement of one byte (changes the byte length for multi-byte characters)
+                if i < bytes.len() {
+                    let mut t = String::new();
+                    t.push_str(&base[..i]);
+                    t.push(c);
+                    t.push_str(&base[i + 1..]);
+                    check_decode(out, &t);
+                }
+            }
+            // deletion, truncation
+            if i < bytes.len() {
+                let mut t = String::new();
+                t.push_str(&base[..i]);
+                t.push_str(&base[i + 1..]);
+                check_decode(out, &t);
+                check_decode(out, &base[..i]);
+            }
+        }
+    }
     // three fields / two fields / one field
     for text in ["00", "00-", "00--", "00---", "00----", "-", "--", "---", "----", "00-1-2", "00-1", "-1-2-3", "00-1-2-3-", "00-1-2-3-4"] {
         check_decode(out, text);
@@ -352,7 +398,7 @@ fn main() {
         "coverage": {
             "evaluations": out.evaluations,
             "distinct_nontrivial": out.nontrivial.len(),
-            "rule": "contexts: lattice of 128-bit x 64-bit ids (0, 1, all-ones, 2^k, 2^k-1, every nibble position x value and complements) x sampled flag, encode form + decode round trip; text: every string of length <= 5 (6) over {0,1,a,F,g,-,+,space,é} and the product of per-field menus (empty, short, exact, upper-case, over-long, overflowing, non-hex, signed, non-ASCII; 1..6 fields; 11 version strings) against an independent reference parser; ids: Display/FromStr/serde_json round trips over the lattices. distinct_nontrivial counts distinct (reference verdict, implementation verdict, field count) classes reached",
+            "rule": "contexts: lattice of 128-bit x 64-bit ids (0, 1, all-ones, 2^k, 2^k-1, every nibble position x value and complements) x sampled flag, encode form + decode round trip; text: every string of length <= 5 (6) over {0,1,a,F,g,-,+,space,é} and the product of per-field menus (empty, short, exact, upper-case, over-long, overflowing, non-hex, signed, non-ASCII; 1..6 fields; 11 version strings), every single-position insertion / replacement / deletion / truncation of three well-formed headers with ASCII and 2-, 3- and 4-byte characters, against an independent reference parser; ids: Display/FromStr/serde_json round trips over the lattices. distinct_nontrivial counts distinct (reference verdict, implementation verdict, field count) classes reached",
             "samples": out.samples,
             "exhaustive": true,
             "violation_list": out.violations,
